@@ -17,7 +17,13 @@ def run(chk):
                        'non-trivial = at least one bundle queued; distinct by event lists')
     sims = []
     for i in range(n):
-        sim, sent, meta = sc.run_scenario(rng, 'transfer', tier, nqueries=rng.choice([0, 2, 6]), npops=rng.choice([0, 1, 2, 6]))
+        # the first few schedules of every run use the protocol's largest segment sizes on both sides
+        # (negotiated TX segment size at and beyond 2^63), the rest draw their configuration at random
+        ext = None
+        if i < 4:
+            ext = [{'seg_init': [2 ** 63 - 1, 2 ** 63, 2 ** 64 - 1, 2 ** 64 - 1][(i + k) % 4], 'seg_mru': [2 ** 63, 2 ** 64 - 1][(i + k) % 2]} for k in (0, 1)]
+        sim, sent, meta = sc.run_scenario(rng, 'transfer', tier, cfg_a=ext and ext[0], cfg_b=ext and ext[1],
+                                          nqueries=rng.choice([0, 2, 6]), npops=rng.choice([0, 1, 2, 6]))
         nontriv = bool(sent['a'] or sent['b'])
         chk.case({'cfg': [meta['cfg_a'], meta['cfg_b']], 'lens': [[len(d) for d in sent['a']], [len(d) for d in sent['b']]],
                   'events': len(sim.log), 'h': hash(json.dumps(sim.a.events) + json.dumps(sim.b.events))}, nontrivial=nontriv, sample=(i < 3))
